@@ -497,8 +497,8 @@ def exec (f : Form) (i : Instr) (pc0 : BitVec 32) (len : Nat) (s : Cpu) : StepRe
     let dc := [s!"m:{String.ofList (Nat.toDigits 16 fa.toNat)}"]   -- top byte of the frame is reserved
     match t with
     | .reg r =>
-      -- JSR @ER7: whether the target is SP before or after the push is left open
-      fin { s1 with pc := low24 (getER s.regs r) } 0 (z24 fa) 0 (tags ++ (if r == 7 then ["overlap"] else [])) dc
+      -- the manual's operation is sequential — PC → @−SP, then EAd → PC — so JSR @ER7 jumps to the decremented SP
+      fin { s1 with pc := low24 (getER s1.regs r) } 0 (z24 fa) 0 tags dc
     | .abs24 a => fin { s1 with pc := z24 a } 0 (z24 fa) 0 tags dc
     | .memind aa =>
       let va : BitVec 24 := aa.setWidth 24
